@@ -584,6 +584,28 @@ def scope_sig(c, exp, got):
 def replay_scope(ctx, tree, paths):
     """paths: the history files of the Scope.tla generation runs (their union is the replayed domain)"""
     q = ctx.quick
+    nt = lambda c: sum(1 for ev in c["h"] if ev["e"] == "decl" or ev["p"]) >= 2
+    if not q:
+        # thorough replays everything: stream the files in chunks (a large Python heap makes every fork() slow)
+        n, first, sampled = 0, 0, False
+        for path in paths:
+            chunk = []
+            for line in open(path):
+                v = json.loads(line)
+                chunk.append(json.loads(v) if isinstance(v, str) else v)
+                if len(chunk) == 40000:
+                    compare(ctx, tree, chunk, render_scope, expect_scope, main_scope, "scope", scope_sig, first=first, prelude=SPRELUDE, nontrivial=nt)
+                    first, n, chunk = first + len(chunk), n + len(chunk), []
+            if chunk:
+                if not sampled:
+                    ctx.sample(dict(kind="scope", c_source=render_scope(0, chunk[len(chunk) // 3]), expected=expect_scope(0, chunk[len(chunk) // 3])))
+                    sampled = True
+                compare(ctx, tree, chunk, render_scope, expect_scope, main_scope, "scope", scope_sig, first=first, prelude=SPRELUDE, nontrivial=nt)
+                first, n = first + len(chunk), n + len(chunk)
+        if n < 500:
+            raise Infra("Scope generator wrote only %d histories" % n)
+        ctx.phase("scope replay")
+        return n, n
     seen, hs = set(), []
     for path in paths:
         for h in vt.read_ndjson(path):
@@ -594,13 +616,13 @@ def replay_scope(ctx, tree, paths):
     hs = [h for _, h in sorted(hs, key=lambda t: t[0])]
     if len(hs) < 500:
         raise Infra("Scope generator wrote only %d histories" % len(hs))
-    tagged = [h for h in hs if sum(1 for ev in h["h"] if ev["k"] in ("tag", "tagfwd", "tagref")) >= 2]
-    other = [h for h in hs if sum(1 for ev in h["h"] if ev["k"] in ("tag", "tagfwd", "tagref")) < 2]
-    sel = vt.subsample(tagged, ctx.seed, 3 if q else 1) + vt.subsample(other, ctx.seed, 4 if q else 1)
+    ntag = lambda h: sum(1 for ev in h["h"] if ev["k"] in ("tag", "tagfwd", "tagref"))
+    tagged = [h for h in hs if ntag(h) >= 2]
+    other = [h for h in hs if ntag(h) < 2]
+    sel = vt.subsample(tagged, ctx.seed, 3) + vt.subsample(other, ctx.seed, 4)
     mid = sel[len(sel) // 3]
     ctx.sample(dict(kind="scope", c_source=render_scope(0, mid), expected=expect_scope(0, mid)))
-    compare(ctx, tree, sel, render_scope, expect_scope, main_scope, "scope", scope_sig, prelude=SPRELUDE,
-            nontrivial=lambda c: sum(1 for ev in c["h"] if ev["e"] == "decl" or ev["p"]) >= 2)
+    compare(ctx, tree, sel, render_scope, expect_scope, main_scope, "scope", scope_sig, prelude=SPRELUDE, nontrivial=nt)
     ctx.phase("scope replay")
     return len(hs), len(sel)
 
